@@ -53,7 +53,27 @@ POSITIONS = {
     'cte-name-shadows-table': 'with t2 as (select * from int2.t5) select * from int1.t2 as a join {T} as b on a.a = b.a',
     'cte-name-shadows-single-table': 'with t2 as (select * from int2.t5) select * from int1.t2 where a in (select a from {T})',
     'cte-and-same-named-table-both-used': 'with t2 as (select * from int2.t5) select * from t2 join int1.t2 as b on t2.a = b.a join {T} as c on c.a = b.a',
+    # sub-selects in the remaining clauses of a select
+    'subquery-having': 'select a from int1.t1 group by a having count(*) > (select max(a) from {T})',
+    'subquery-order-by': 'select a from int1.t1 order by (select max(a) from {T})',
+    'subquery-group-by': 'select count(*) from int1.t1 group by (select max(a) from {T})',
+    'subquery-join-on': 'select * from int1.t1 as t1 join int1.t3 as t3 on t1.a = t3.a and t3.b in (select a from {T})',
+    'subquery-between': 'select * from int1.t1 where a between 1 and (select max(a) from {T})',
+    'subquery-not-in': 'select * from int1.t1 where a not in (select a from {T})',
+    'subquery-typecast': 'select * from int1.t1 where a = cast((select max(a) from {T}) as int)',
+    'subquery-nested': 'select * from int1.t1 where a in (select a from int1.t3 where b in (select a from {T}))',
+    # columns written with the integration qualifier (also a qualified star), alone / pushed down with a same-integration join
+    'qualified-star': 'select int1.t1.* from int1.t1 where int1.t1.a in (select a from {T})',
+    'qualified-columns': 'select int1.t1.a, int1.t1.b as bb from int1.t1 where int1.t1.a = 1 and b in (select a from {T}) order by int1.t1.a',
+    'qualified-columns-same-integration-join': 'select int1.t1.*, int1.t3.a from int1.t1 join int1.t3 on int1.t1.a = int1.t3.a where int1.t1.b in (select a from {T})',
+    'qualified-star-join': 'select int1.t1.*, x.a from int1.t1 join {T} as x on int1.t1.a = x.a',
 }
+# every sub-select position also with a sub-select body that JOINS a table of the outer integration with the target
+for _k, _v in list(POSITIONS.items()):
+    if 'from {T})' in _v and not _k.startswith(('cte', 'schema', 'qualified')):
+        POSITIONS[_k + '-joined-body'] = _v.replace('from {T})', 'from int1.t3 as y join {T} as x on x.a = y.a)') \
+            .replace('select a from int1.t3', 'select x.a from int1.t3').replace('select max(a) from int1.t3', 'select max(x.a) from int1.t3') \
+            .replace('select * from int1.t3', 'select x.* from int1.t3')
 TARGETS = {
     'table-other-int': ('int2.t2', 'int2.t5'),
     'table-default-ns': ('t7', 't8'),
@@ -114,6 +134,31 @@ def table_occurrences(root):
     return out
 
 
+def column_occurrences(root):
+    """Identifier nodes that are NOT in a table slot and have at least two parts (a trailing Star is written '*')."""
+    tabs, cols = set(), []
+
+    def visit(o, path):
+        k = type(o).__name__
+        if k == 'Select' and type(getattr(o, 'from_table', None)).__name__ == 'Identifier':
+            tabs.add(id(o.from_table))
+        elif k == 'Join':
+            for side in (o.left, o.right):
+                if type(side).__name__ == 'Identifier':
+                    tabs.add(id(side))
+        elif k in ('Insert', 'Update', 'Delete', 'CreateTable') and type(getattr(o, 'table', getattr(o, 'name', None))).__name__ == 'Identifier':
+            tabs.add(id(getattr(o, 'table', getattr(o, 'name', None))))
+        elif k == 'Identifier' and path and path[-1] != 'alias' and len(o.parts) > 1:
+            cols.append(o)
+    walk_objects(root, visit)
+    out = []
+    for c in cols:
+        if id(c) in tabs:
+            continue
+        out.append(name_rec(['*' if type(p).__name__ == 'Star' else str(p) for p in c.parts]))
+    return out[:12]
+
+
 def catalog_rec(kw):
     ints, projects = [], ['mindsdb']
     for i in kw.get('integrations') or []:
@@ -139,6 +184,9 @@ def catalog_rec(kw):
     return {'ints': ints, 'projects': projects, 'default': (kw.get('default_namespace') or '').lower(), 'models': models}
 
 
+_COLS = {}
+
+
 def _case(args):
     sql, kw = args
     from mindsdb_sql import parse_sql
@@ -149,6 +197,8 @@ def _case(args):
     except Exception as e:   # noqa
         return {'status': 'parse-error'}
     tables = table_occurrences(tree)
+    tree._verif_cols = column_occurrences(tree)
+    _COLS[sql] = tree._verif_cols
     cat = catalog_rec(kw)
     try:
         plan = plan_query(parse_sql(sql, 'mindsdb'), **copy.deepcopy(kw))
@@ -167,18 +217,20 @@ def _facts(sql, tables, cat, plan):
         if k == 'FetchDataframeStep':
             q = getattr(o, 'query', None)
             fetches.append({'int': str(o.integration).lower(), 'tables': table_occurrences(q) if q is not None else [],
-                            'sql': str(q)})
+                            'cols': column_occurrences(q) if q is not None else [], 'sql': str(q)})
         elif k == 'DeleteStep':
             # the statement is executed by the integration of its target table; tables inside its WHERE travel with it
             tparts = [str(p) for p in o.table.parts]
             db = tparts[0].lower() if len(tparts) > 1 and tparts[0].lower() in cat['ints'] else cat['default']
             w = getattr(o, 'where', None)
-            fetches.append({'int': db, 'tables': table_occurrences(w) if w is not None else [], 'sql': 'DELETE .. WHERE %s' % w})
+            fetches.append({'int': db, 'tables': table_occurrences(w) if w is not None else [],
+                            'cols': column_occurrences(w) if w is not None else [], 'sql': 'DELETE .. WHERE %s' % w})
         elif k in ('ApplyPredictorStep', 'ApplyPredictorRowStep', 'ApplyTimeseriesPredictorStep', 'GetPredictorColumns'):
             applies.append({'ns': str(o.namespace).lower(), 'name': name_rec(o.predictor.parts)})
     for s in plan.steps:
         walk_objects(s, visit)
-    return {'status': 'ok', 'x': {'cat': cat, 'tables': tables, 'fetches': [{'int': f['int'], 'tables': f['tables']} for f in fetches],
+    return {'status': 'ok', 'x': {'cat': cat, 'tables': tables, 'cols': _COLS.get(sql) or [],
+                                  'fetches': [{'int': f['int'], 'tables': f['tables'], 'cols': f['cols']} for f in fetches],
                                   'applies': applies},
             'fetch_sql': [(f['int'], f['sql']) for f in fetches], 'applies': applies}
 
@@ -195,7 +247,9 @@ def _hist(args):
         if plan is None:
             out.append({'status': st})
             continue
-        out.append(_facts(sql, table_occurrences(parse_sql(sql, 'mindsdb')), cat, plan))
+        t_ = parse_sql(sql, 'mindsdb')
+        _COLS[sql] = column_occurrences(t_)
+        out.append(_facts(sql, table_occurrences(t_), cat, plan))
     return out
 
 
@@ -253,6 +307,7 @@ def run(ctx):
         for flag, what in (('notfetched', 'a data table of the query is not fetched from the integration its name resolves to '
                                           '(or keeps its qualifier)'),
                            ('foreign', 'a fetch step ships a table that does not belong to its integration'),
+                           ('colqualified', 'a column (or qualified star) is shipped to the integration with the integration qualifier still on it'),
                            ('modelshipped', 'a model name is sent to an integration'),
                            ('notapplied', 'a model reference has no apply-predictor step in its own project with its version')):
             if j[flag]:
